@@ -396,7 +396,7 @@ def run_c05(pid, tier):
         fol, fname = rng.choice(FOLLOWERS)
         kind = end_kind(src)
         # the follower must not extend the fragment (that is what the documented grammar says)
-        if not follower_ok(kind, fol.replace("@@", "@").replace("@n", "@")): continue
+        if not follower_ok(kind, fol.replace("@@", "@").replace("@n", "@"), whole=True): continue
         place = rng.choice(["top", "paren", "block", "brace-end"])
         if src.startswith("(") and not paren_closes_at_end(src) and place != "paren": continue
         rend = lambda v: esc(str(v))
